@@ -133,7 +133,7 @@ func c11Execute(in c11Conc) *c11Trace {
 	tr := &c11Trace{outs: make([][2]uint64, n), done: make([]bool, n)}
 	liveOuts, liveDone := make([][2]uint64, n), make([]bool, n)
 	var o webrtc.VerifOrigin
-	s := NewSched()
+	s := NewSched().Only("sdp.origin.")
 	s.Grace = 0
 	defer s.Close()
 	defer func() {
